@@ -124,6 +124,58 @@ def drive_hist(case, extra):
             for k, per in sorted(steps.items())]
 
 
+def _big_to_json(v):
+    """A value of the large-value family: bools and ints exactly (limbs in base 10000, least
+    significant first), anything else by its kind only."""
+    if isinstance(v, bool):
+        return {"k": "bool", "b": v}
+    if isinstance(v, int):
+        a, m = abs(v), []
+        while a:
+            m.append(a % 10000)
+            a //= 10000
+        return {"k": "big", "v": {"s": (v > 0) - (v < 0), "m": m}}
+    return {"k": type(v).__name__ if not isinstance(v, float) else "flt"}
+
+
+def _big_from_json(j):
+    n = 0
+    for limb in reversed(j["m"]):
+        n = n * 10000 + limb
+    return n * j["s"]
+
+
+def drive_big(case, extra):
+    """C02_Big: the tree in one large-value environment, through all entry points."""
+    import warnings
+
+    from pymbolic.mapper.evaluator import (CachedEvaluationMapper, EvaluationMapper,
+                                          evaluate, evaluate_kw)
+    import pymbolic.primitives as p
+    expr = ser.from_json(case["e"])
+    env = {k: _big_from_json(v) for k, v in extra["bigenvs"][case["benv"] - 1].items()}
+
+    def obs(thunk):
+        try:
+            with warnings.catch_warnings():
+                warnings.simplefilter("ignore")
+                return _big_to_json(thunk())
+        except RecursionError:
+            raise
+        except Exception as exc:  # noqa: BLE001
+            return ser.exc_to_json(exc)
+    vs = [obs(lambda: EvaluationMapper(env)(expr)), obs(lambda: CachedEvaluationMapper(env)(expr)),
+          obs(lambda: evaluate(expr, env)), obs(lambda: evaluate_kw(expr, **env))]
+    aux = {"k": "none"}
+    if isinstance(expr, p.Remainder):      # the quotient the same evaluator gives for these operands
+        aux = obs(lambda: EvaluationMapper(env)(p.FloorDiv(expr.numerator, expr.denominator)))
+    uniq = []
+    for v in vs:
+        if v not in uniq:
+            uniq.append(v)
+    return {"id": case["id"], "e": case["e"], "benv": case["benv"], "r": uniq, "aux": aux, "fam": "big"}
+
+
 def kinds_in(e, acc=None):
     acc = set() if acc is None else acc
     if isinstance(e, dict):
@@ -221,6 +273,32 @@ def run(tier, seed, out):
     out.extra["history_steps_judged"] = len(hrecs)
     out.extra["arrays_judged"] = len(arecs)
     recs = recs + hrecs + arecs
+    # large values (BigNum): judged by their own judge module
+    big = kit.run_tlc("C02_Big", "C02_Big", workers=4, coverage=False)
+    kit.require_clean(big, "C02 large-value model (BigNum laws, generator)")
+    out.add_tlc(big)
+    bp = big.printed()
+    bigenvs = [p["bigenvs"] for p in bp if "bigenvs" in p]
+    bcases = [p for p in bp if "benv" in p]
+    if len(bigenvs) != 1 or not bcases:
+        raise kit.MachineryError("C02_Big printed no environments / cases")
+    for i, c in enumerate(bcases):
+        c["id"] = f"b{i}"
+    brecs = kit.drive("harness.c02", "drive_big", bcases, {"bigenvs": bigenvs[0]})
+    out.evaluations += 4 * len(brecs)
+    out.extra["large_value_cases_judged"] = len(brecs)
+    bshards = kit.write_shards(brecs, wd / "trace_big", "c02big", 12000)
+    bverdicts, st, tr = kit.judge_shards("C02_BigJudge", "C02_BigJudge", bshards)
+    out.states += st
+    out.transitions += tr
+    out.traces += len(brecs)
+    bbyid = {r["id"]: r for r in brecs}
+    for v in bverdicts:
+        if "id" not in v:       # (the judge module extends C02_Big, which prints its environments)
+            continue
+        rec = bbyid[v["id"]]
+        out.fail({"clause": v["v"], "root": rec["e"]["t"], "family": "big"},
+                 {"case": rec["e"], "fam": "big", "benv": rec["benv"], "recorded": rec["r"], "aux": rec["aux"]})
     shards = kit.write_shards(recs, wd / "trace", "c02", 12000)
     verdicts, st, tr = kit.judge_shards("C02_Judge", "C02_Judge", shards)
     out.states += st
@@ -267,6 +345,20 @@ def replay(path, out):
         pool = [p["pool"] for p in hist.printed() if "pool" in p][0]
         recs = [r for r in kit.drive("harness.c02", "drive_hist", [{"id": "h0", "hist": det["hist"]}],
                                      {"envs": envs[0], "pool": pool})[0]]
+    elif det.get("fam") == "big":
+        big = kit.run_tlc("C02_Big", "C02_Big", workers=2, coverage=False)
+        bigenvs = [p["bigenvs"] for p in big.printed() if "bigenvs" in p][0]
+        brecs = kit.drive("harness.c02", "drive_big", [{"id": "b0", "e": det["case"], "benv": det["benv"]}],
+                          {"bigenvs": bigenvs})
+        bsh = kit.write_shards(brecs, wd / "trace_big", "c02big", 12000)
+        bverd, st, tr = kit.judge_shards("C02_BigJudge", "C02_BigJudge", bsh)
+        out.states += st
+        out.transitions += tr
+        out.traces += 1
+        for v in [v for v in bverd if "id" in v]:
+            out.fail({"clause": v["v"], "root": brecs[0]["e"]["t"], "family": "big"},
+                     {"case": brecs[0]["e"], "fam": "big", "benv": brecs[0]["benv"], "recorded": brecs[0]["r"]})
+        return
     elif det.get("fam") == "arr":
         import numpy as np
         case = {"id": "a0", "e": det["case"], "lay": det["lay"],
